@@ -119,6 +119,10 @@ class DictSub(dict):
     """A dict subclass (like collections.OrderedDict)."""
 
 
+class StrSub(str):
+    """A str subclass (like the members of a `class Colour(str, Enum)`): still a JSON string."""
+
+
 def exotic(v, seed):
     """Rebuild v with dict/list *subclasses* (OrderedDict, plain subclasses) at pseudo-randomly chosen nested
     containers (deterministic in seed).
@@ -149,6 +153,8 @@ def exotic(v, seed):
             if not top and nxt() % 2 == 0:
                 return ListSub(items)
             return items
+        if type(x) is str and not top and nxt() % 3 == 0:
+            return StrSub(x)
         return x
 
     return rec(v, True)
